@@ -8,7 +8,14 @@
 
 package rtmp
 
-import "io"
+import (
+	"io"
+	"sync"
+
+	"github.com/ossrs/go-oryx-lib/amf0"
+)
+
+func prim_held(mu *sync.Mutex) bool { return false } // ghost lock-set membership; not observable at run time
 
 func prim_sameslice(a, b []byte) bool {
 	return len(a) == len(b) && (len(a) == 0 || &a[0] == &b[0])
@@ -127,6 +134,146 @@ func ens_c3(v *Message, ret0 []byte, ret1 error) bool {
 	}
 	return prim_fresh(ret0)
 }
+
+// ---------- C01/C08: WriteMessage ----------
+
+// output chunk size in [1, 2^31-1] (5.4.1), a well-formed message with a non-empty payload below 2^24 bytes
+func spec_wfWriter(v *Protocol) bool {
+	return v.w != nil && v.output.opt != nil && v.output.opt.chunkSize >= 1 && v.output.opt.chunkSize < 1<<31
+}
+
+//@ requires (*Protocol).WriteMessage
+func req_WriteMessage(v *Protocol, m *Message) bool {
+	return spec_wfWriter(v) && m != nil && m.betterCid >= 2 && m.betterCid <= 63 && m.Timestamp < 1<<31 && len(m.Payload) < 1<<24
+}
+
+// loop invariant: what is left (p) is a suffix of the payload; before the first chunk nothing was written; after the
+// first chunk of a message that fits one chunk, the output is the type-0 header followed by the whole payload
+//@ invariant (*Protocol).WriteMessage 0
+func inv_WriteMessage(v *Protocol, m *Message, p, h, c0h []byte) bool {
+	n := len(m.Payload)
+	w, o := v.w, ghost_old_wr_len(v.w)
+	if !(spec_wfWriter(v) && len(p) <= n && (len(p) == 0 || prim_sameslice(p, m.Payload[n-len(p):])) && m.payloadLength == uint32(n)) {
+		return false
+	}
+	if !(len(c0h) == 12 && m.Timestamp < 0xffffff || len(c0h) == 16 && m.Timestamp >= 0xffffff) {
+		return false
+	}
+	if h == nil {
+		return len(p) == n && ghost_wr_len(w) == o && (ghost_old_ioerr() != nil || ghost_ioerr() == nil)
+	}
+	if ghost_old_ioerr() == nil && ghost_ioerr() != nil {
+		return false
+	}
+	if n > int(v.output.opt.chunkSize) {
+		return len(p) < n
+	}
+	return len(p) == 0 && ghost_wr_len(w) == o+len(c0h)+n &&
+		prim_forall(len(c0h), func(i int) bool { return ghost_wr_at(w, o+i) == c0h[i] }) &&
+		prim_forall(n, func(i int) bool { return ghost_wr_at(w, o+len(c0h)+i) == m.Payload[i] })
+}
+
+//@ decreases (*Protocol).WriteMessage 0
+func dec_WriteMessage(p []byte) int { return len(p) }
+
+// a message that fits one chunk goes out as the type-0 header followed by the payload, nothing else
+//@ ensures (*Protocol).WriteMessage C01.write.single-chunk
+func ens_WriteMessage_single(v *Protocol, m *Message, err error) bool {
+	n := len(m.Payload)
+	if err != nil || n == 0 || n > int(v.output.opt.chunkSize) {
+		return true
+	}
+	w, o := v.w, ghost_old_wr_len(v.w)
+	hl := 12
+	if m.Timestamp >= 0xffffff {
+		hl = 16
+	}
+	if ghost_wr_len(w) != o+hl+n || m.payloadLength != uint32(n) {
+		return false
+	}
+	if ghost_wr_at(w, o) != byte(m.betterCid) || ghost_wr_at(w, o+4) != byte(n>>16) || ghost_wr_at(w, o+5) != byte(n>>8) || ghost_wr_at(w, o+6) != byte(n) ||
+		ghost_wr_at(w, o+7) != byte(m.MessageType) || ghost_wr_at(w, o+8) != byte(m.streamID) || ghost_wr_at(w, o+11) != byte(m.streamID>>24) {
+		return false
+	}
+	return prim_forall(n, func(i int) bool { return ghost_wr_at(w, o+hl+i) == m.Payload[i] })
+}
+
+//@ ensures (*Protocol).WriteMessage C08.rtmp.write-message
+func ens_WriteMessage_err(err error) bool { return spec_errKeepsRoot(err) }
+
+//@ assigns (*Protocol).WriteMessage m.messageHeader.payloadLength, ghost.wr(v.w), ghost.ioerr
+
+// ---------- C01/C04/C08: WritePacket ----------
+
+//@ iface Packet.MarshalBinary assigns nothing
+//@ iface Packet.Type assigns nothing
+//@ iface Packet.BetterCid ensures C01
+func iface_BetterCid(ret0 chunkID) bool { return ret0 >= 2 && ret0 <= 63 }
+
+//@ iface Packet.MarshalBinary ensures C01
+func iface_PacketMarshal(data []byte, err error) bool { return err != nil || len(data) < 1<<24 }
+
+//@ shared input.transactions guarded_by input.ltransactions C04.guarded
+
+//@ requires (*Protocol).WritePacket
+func req_WritePacket(v *Protocol, pkt Packet) bool {
+	switch p := pkt.(type) { // an interface holding a typed nil pointer is not a packet
+	case *ConnectAppPacket:
+		if p == nil {
+			return false
+		}
+	case *CreateStreamPacket:
+		if p == nil {
+			return false
+		}
+	case *SetChunkSize:
+		if p == nil {
+			return false
+		}
+	}
+	return spec_wfWriter(v) && pkt != nil && v.input.transactions != nil && !prim_held(&v.input.ltransactions)
+}
+
+// a request that expects a response (connect, createStream) is in the transaction table BEFORE its bytes are handed
+// to the transport: the peer's answer can then never arrive "unmatched"
+func spec_registered(v *Protocol, pkt Packet) bool {
+	var tid amf0.Number
+	var name amf0.String
+	switch p := pkt.(type) {
+	case *ConnectAppPacket:
+		tid, name = p.TransactionID, p.CommandName
+	case *CreateStreamPacket:
+		tid, name = p.TransactionID, p.CommandName
+	}
+	if !(tid > 0 && len(name) > 0) {
+		return true
+	}
+	got, ok := v.input.transactions[tid]
+	return ok && got == name
+}
+
+//@ at-call (*Protocol).WritePacket WriteMessage C04.register-before-send
+func at_WritePacket_registered(v *Protocol, pkt Packet) bool { return spec_registered(v, pkt) }
+
+// our own Set Chunk Size (5.4.1) takes effect on the writer for the following messages
+//@ ensures (*Protocol).WritePacket C01.scs.own
+func ens_WritePacket_scs(v *Protocol, pkt Packet, err error) bool {
+	if p, ok := pkt.(*SetChunkSize); ok && err == nil {
+		return v.output.opt.chunkSize == p.ChunkSize
+	}
+	return true
+}
+
+//@ ensures (*Protocol).WritePacket C04.registered-after
+func ens_WritePacket_registered(v *Protocol, pkt Packet, err error) bool { return err != nil || spec_registered(v, pkt) }
+
+//@ ensures (*Protocol).WritePacket C04.balanced
+func ens_WritePacket_balanced(v *Protocol) bool { return !prim_held(&v.input.ltransactions) }
+
+//@ ensures (*Protocol).WritePacket C08.rtmp.write-packet
+func ens_WritePacket_err(err error) bool { return spec_errKeepsRoot(err) }
+
+//@ assigns (*Protocol).WritePacket v.input.transactions[*], v.input.ltransactions, v.output.opt.chunkSize, ghost.wr(v.w), ghost.ioerr
 
 // ---------- C02: chunk basic header (5.3.1.1) ----------
 
@@ -659,4 +806,5 @@ func lemma_C03_userControlRoundtrip(p *UserControl, rest []byte) bool {
 //@ safe (*Protocol).readMessageHeader C07
 //@ safe (*Protocol).readMessagePayload C07
 //@ safe (*Protocol).ReadMessage C07
+//@ safe (*Protocol).WriteMessage C01
 //@ safe (*Protocol).onMessageArrivated C07
